@@ -19,7 +19,9 @@ RULE = ('for each data class (JSONData, NumpyData, PandasData, GeneratedData, Ge
         'size: one traced request (protocol extraction), then one killed process per recorded file operation (os._exit inside '
         'the audit hook immediately before the operation; operations inside rmtree and every file written into a work directory '
         'are crash points of their own) and torn prefixes of the file being written; after every crash and every failure a later '
-        'process reports has_data, value, run count and the state of all path roles, then requests again on a new chain. '
+        'process reports has_data, value, run count and the state of all path roles, then requests again on a new chain; '
+        'plus fault sequences: every ordered pair of raise points of a class, one failing request after the other (new chain each), '
+        'then recovery. '
         'Compared with the Lean model: operation trace, state at the crash point, recovery outcome and state. '
         'distinct = distinct (class, mode, raise point, size, crash point, torn fraction); non-trivial = a crash or failure case')
 ASSUMPTIONS = ['os.rename / shutil.move within one directory are atomic; a killed process leaves a prefix of the bytes of the file it was '
@@ -426,6 +428,53 @@ def _run(ctx, pool, root0, dtasks):
         traces[si] = (prims, vis, mpoints, req['events'], trailing, mend)
 
     drive(ctx, [procA(si, *sc, res) for si, (sc, res) in enumerate(zip(scen, resA))])
+
+    # ---------------- phase S: fault sequences (a failed attempt followed by another failed attempt, then recovery) ----------------
+    seqs = []
+    rngS = ctx.rng('fault-sequences')
+    for kind in dtasks.KINDS:
+        pairs = [(a, b_) for a in FAULTS[kind] for b_ in FAULTS[kind]]
+        if not ctx.thorough and kind not in ('dirData', 'continues'):
+            pairs = rngS.sample(pairs, 2)
+        for f1, f2 in pairs:
+            for mode in (('first', 'forced') if ctx.thorough or kind in ('dirData', 'continues') else (rngS.choice(['first', 'forced']),)):
+                seqs.append((kind, mode, f1, f2))
+    jobsS = []
+    for qi, (kind, mode, f1, f2) in enumerate(seqs):
+        size = size_of(kind, 'small')
+        root = str(root0 / f's{qi}')
+        Path(root).mkdir(parents=True, exist_ok=True)
+        r1 = request_step(kind, root, mode, f1, size, True)
+        r2 = request_step(kind, root, mode, f2, size, True); r2['ctl'] = dict(r2['ctl'], gen=3)
+        snap = {'do': 'snapshot', 'kind': kind, 'root': root, 'size': size}
+        jobsS.append(setup_steps(kind, root, mode, size) + [snap, r1, snap, r2] + tail_steps(kind, root, size, g=4))
+    resS = pool.map(jobsS)
+
+    def procS(qi, kind, mode, f1, f2, res):
+        check_step_errors(res, f'phase S {seqs[qi]}')
+        size = size_of(kind, 'small')
+        snap0, req1, snap1, req2, snap2, obs = res[-6:]
+        case = {'phase': 'fault-sequence', 'class': kind, 'mode': mode, 'raise_at': [f1, f2]}
+        ctx.case(case, nontrivial=True); ctx.count(f'sequence:{kind}')
+        existed = mode == 'forced'
+        # oracle first (model-independent)
+        for k_, req in ((1, req1), (2, req2)):
+            if req['outcome'] == 'raise' and not req.get('data_reset'):
+                ctx.fail('after an exception the task keeps its data object (`_data` not reset)', dict(case, attempt=k_), req)
+        # (a resumable task that fails only at the type check has already published a complete result: generations 2 / 3 may be visible)
+        ran2 = req2.get('runs', 0) >= 1
+        oracle(ctx, case, obs, existed, kind, fault=f2 if ran2 else None, snap=snap2['state'], g=4, allowed={2, 3} | ({1} if existed else set()))
+        # model: the same two failing requests, chained
+        st = to_model_state(snap0['state'])
+        for k_, (f, snapk) in enumerate(((f1, snap1), (f2, snap2))):
+            mr = yield model_req(kind, 2 + k_, f, mode == 'forced', st, True)
+            if mr.get('end') is None or canon(snapk['state']) != canon(mr['end']):
+                ctx.diverge('sequence:state-after-failure', dict(case, attempt=k_ + 1), canon(snapk['state']), None if mr.get('end') is None else canon(mr['end']))
+                return
+            st = mr['end']
+        yield from expect_recovery(ctx, case, snap2['state'], obs, kind, size, g=4)
+
+    drive(ctx, [procS(qi, *sq, res) for qi, (sq, res) in enumerate(zip(seqs, resS))])
 
     # ---------------- phase B: crash replay ----------------
     jobsB, metaB = [], []
